@@ -117,6 +117,13 @@ pub fn hash_str(s: &str) -> u64 {
 }
 
 impl Report {
+    /// append a remark to the rule text (used by engines that run the same family at another granularity)
+    pub fn with_note(mut self, note: &str) -> Report {
+        if !note.is_empty() {
+            self.rule = format!("{} {}", note, self.rule);
+        }
+        self
+    }
     pub fn new(property: &str, rule: &str) -> Report {
         Report {
             property: property.into(),
